@@ -13,6 +13,13 @@ VERIF = os.path.dirname( os.path.dirname( os.path.abspath( __file__ )))
 PY = '/venv/bin/python'
 
 
+def netns( cmd ):
+    """run a command line inside a private network namespace (the tests bind fixed localhost ports)"""
+    import shlex
+    line = cmd if isinstance( cmd, str ) else ' '.join( shlex.quote( c ) for c in cmd )
+    return [ 'unshare', '-n', 'sh', '-c', 'ip link set lo up; exec ' + line ]
+
+
 def sh( cmd, cwd=None, env=None, timeout=3600 ):
     try:
         p = subprocess.run( cmd, cwd=cwd, env=env, shell=isinstance( cmd, str ), stdout=subprocess.PIPE, stderr=subprocess.STDOUT, timeout=timeout )
@@ -55,7 +62,7 @@ def main():
         res['repo_head'] = sh( [ 'git', '-C', '/repo', 'rev-parse', '--short', 'HEAD' ] )[1].strip()
         env = dict( os.environ, PYTHONPATH=base, PYTHONDONTWRITEBYTECODE='1' )
         demo = os.path.join( cand, 'demo.py' )
-        rc, out = sh( [ PY, demo ], cwd=wt, env=env, timeout=600 )
+        rc, out = sh( netns( [ PY, demo ] ), cwd=wt, env=env, timeout=600 )
         res['demo_clean_rc'] = rc; res['demo_clean_tail'] = out[-600:]
         rc, out = sh( 'patch -p1 -s --no-backup-if-mismatch < %s' % os.path.join( cand, 'patch.diff' ), cwd=wt )
         res['patch_rc'] = rc; res['patch_out'] = out[-400:]
@@ -65,7 +72,7 @@ def main():
         res['files_changed'] = changed
         rc, out = sh( [ PY, '-m', 'py_compile' ] + [ f for f in changed if f.endswith( '.py' ) ], cwd=wt, env=env )
         res['compile_rc'] = rc
-        rc, out = sh( [ PY, demo ], cwd=wt, env=env, timeout=600 )
+        rc, out = sh( netns( [ PY, demo ] ), cwd=wt, env=env, timeout=600 )
         res['demo_patched_rc'] = rc; res['demo_patched_tail'] = out[-900:]
         # static checks on the patched tree (all claimed properties)
         m = json.load( open( os.path.join( VERIF, 'MANIFEST.json' )))
@@ -79,7 +86,7 @@ def main():
         if run_suite:
             jx = os.path.join( base, 'junit.xml' )
             t0 = time.time()
-            rc, out = sh( [ PY, '-m', 'pytest', '-q', '-p', 'no:cacheprovider', '--timeout=900', '--continue-on-collection-errors', '--junitxml=' + jx ],
+            rc, out = sh( netns( [ PY, '-m', 'pytest', '-q', '-p', 'no:cacheprovider', '--timeout=900', '--continue-on-collection-errors', '--junitxml=' + jx ] ),
                           cwd=wt, env=env, timeout=3000 )
             passed, failed = junit_passed( jx )
             stable = stable_tests()
